@@ -44,6 +44,7 @@ type World struct {
 	PureUnverified      []string
 	indexByContainer    bool
 	constGlobals        map[*ssa.Global]*ssa.Const
+	constStringSets     map[*ssa.Global][]string
 	parametric          map[*ssa.Function]bool
 	reachMemo           map[[2]*ssa.Function]bool
 }
